@@ -3,6 +3,7 @@ package checks
 import (
 	"encoding/binary"
 	"fmt"
+	"strings"
 
 	"pgregory.net/rapid"
 	"verifharness/gen"
@@ -270,6 +271,10 @@ func hostileFrame(rt *rapid.T) hostile {
 	case 2: // conformant frame, untouched
 		b, k, _ := seedFrame(rt, budget)
 		return hostile{b: b, kind: k, valid: true}
+	case 3: // L5: deep nesting with lying lengths
+		if h, ok := deepNest(rt); ok {
+			return h
+		}
 	}
 	want := ""
 	switch gen.Pick(rt, "focus", 8) {
@@ -419,4 +424,70 @@ func packetInPayloadOffset(b []byte) int {
 		return -1
 	}
 	return o
+}
+
+// deepNest (L5): a flow-mod whose instruction carries a chain of 8..70 directly
+// nested conntrack actions (each level may also hold a sibling action), with
+// the length fields of many levels overridden - independently, or alternating
+// between two values along the chain. A decoder that re-reads bytes it already
+// consumed at each level turns such a chain into exponential work.
+func deepNest(rt *rapid.T) (hostile, bool) {
+	g := gen.New(rt, 300)
+	_, tree := g.MessageOf("flow_mod")
+	if len(tree.Kids) == 0 || tree.Kids[0].Kind != "match" {
+		return hostile{}, false
+	}
+	depth := rapid.IntRange(8, 70).Draw(rt, "nest_depth")
+	cur := spec.N("act.output", spec.U("port", 1), spec.U("max_len", 0xffff))
+	for i := 0; i < depth; i++ {
+		ct := spec.N("nx.ct", spec.U("flags", 0), spec.U("zone_src", 0), spec.U("zone_ofs_nbits", 0), spec.U("recirc_table", 0xff), spec.U("alg", 0))
+		ct.Add(cur)
+		if gen.Pick(rt, "sibling", 4) == 0 {
+			ct.Add(spec.N("act.group", spec.U("group_id", uint64(i))))
+		}
+		cur = ct
+	}
+	tree.Kids = []*spec.Node{tree.Kids[0], spec.N("instr.apply_actions").Add(cur)}
+	tree.Set("command", 0)
+	b, big := encodeModel(tree)
+	if big {
+		return hostile{}, false
+	}
+	_, slots, _ := spec.Decode(b)
+	var lens []spec.Slot
+	for _, s := range slots {
+		if s.Class == "len" && s.Width == 2 && strings.Contains(s.Path, "nx.ct") {
+			lens = append(lens, s)
+		}
+	}
+	if len(lens) < 4 {
+		return hostile{}, false
+	}
+	muts := []string{fmt.Sprintf("deep-nest depth=%d", depth)}
+	pick := func(l string, cur uint64, rem int) uint64 {
+		c := []uint64{24, 32, 48, 96, cur - 8, cur + 8, cur - 16, cur + 48, uint64(rem), uint64(rem) - 8, cur / 2 &^ 7, 0x100}
+		return c[gen.Pick(rt, l, len(c))]
+	}
+	if rapid.Bool().Draw(rt, "alternate") {
+		from := rapid.IntRange(0, len(lens)/2).Draw(rt, "alt_from")
+		v1 := pick("alt_v1", 96, 0)
+		v2 := pick("alt_v2", 48, 0)
+		for i := from; i < len(lens); i++ {
+			v := v1
+			if (i-from)%2 == 1 {
+				v = v2
+			}
+			putN(b, lens[i].Off, 2, v)
+		}
+		muts = append(muts, fmt.Sprintf("alternating lengths %d/%d from level %d", v1, v2, from))
+	} else {
+		k := rapid.IntRange(1, len(lens)).Draw(rt, "nest_nmut")
+		for j := 0; j < k; j++ {
+			s := lens[gen.Pick(rt, "nest_level", len(lens))]
+			cur := getN(b, s.Off, 2)
+			putN(b, s.Off, 2, pick("nest_val", cur, len(b)-s.Off))
+		}
+		muts = append(muts, fmt.Sprintf("%d length fields of the chain overridden", k))
+	}
+	return hostile{b: b, kind: "flow_mod(deep ct chain)", muts: muts}, true
 }
